@@ -194,25 +194,51 @@ def run(args, rep):
         records.append({k: v for k, v in o.items() if not k.startswith('_')})
         if o['trigger']:
             rep.nontrivial.add(sha(o['id'].rsplit('|', 2)[0]))
-    # (c) Python 2.7: the exec statement
+    # (c) Python 2.7: the exec statement, and star imports inside function bodies (legal there on 2.x)
     if '2.7' in available_versions():
-        src27 = ("module_level_counter = 3\ndef reports(first_argument):\n    local_total = first_argument + 1\n    exec 'local_total = 5'\n"
-                 "    return local_total, sorted(locals())\nprint reports(1)\nprint sorted(n for n in globals() if not n.startswith('__'))\n")
+        progs27 = {
+            'py27-exec-stmt': ("module_level_counter = 3\ndef reports(first_argument):\n    local_total = first_argument + 1\n    exec 'local_total = 5'\n"
+                               "    return local_total, sorted(locals())\nprint reports(1)\nprint sorted(n for n in globals() if not n.startswith('__'))\n"),
+            'py27-star-in-function': ("module_level_counter = 3\ndef reports(first_argument):\n    doubled_value = first_argument * 2\n    other_value = doubled_value + 1\n"
+                                      "    from re import *\n    return doubled_value + other_value + module_level_counter, I\nprint reports(5)\n"),
+            'py27-star-in-nested-function': ("def outer_function(first_argument):\n    long_local_name = first_argument + 1\n    def inner_function(second_argument):\n"
+                                             "        inner_local_name = second_argument * 2\n        from re import *\n        return inner_local_name, I\n"
+                                             "    return inner_function(long_local_name), long_local_name\nprint outer_function(2)\n"),
+            'py27-star-at-module': ("from re import *\nmodule_level_counter = 3\ndef reports(first_argument):\n    doubled_value = first_argument * 2\n"
+                                    "    return doubled_value + module_level_counter, I\nprint reports(5)\n"),
+            'py27-exec-in-nested': ("def outer_function(first_argument):\n    long_local_name = first_argument + 1\n    def inner_function():\n        exec 'pass'\n        return 1\n"
+                                    "    return inner_function() + long_local_name\nprint outer_function(2)\n"),
+        }
+        import io as _io
+        import tokenize as _tok
+
+        def names_of(text):
+            try:
+                return sorted(t.string for t in _tok.generate_tokens(_io.StringIO(text).readline) if t.type == _tok.NAME)
+            except Exception:  # noqa
+                return ['<untokenizable>']
         reqs = []
-        for ci, combo in enumerate(combos):
-            o = dict(zip(optnames, combo))
-            reqs.append({'op': 'minify', 'id': 'py27-exec-stmt|%d' % ci, 'src_b64': inputs.b64(src27.encode()), 'as_bytes': True, 'opts': o})
+        for pname, src27 in sorted(progs27.items()):
+            for ci, combo in enumerate(combos):
+                o = dict(STRUCT_OFF)
+                o.update(dict(zip(optnames, combo)))
+                reqs.append({'op': 'minify', 'id': '%s|%d' % (pname, ci), 'src_b64': inputs.b64(src27.encode()), 'as_bytes': True, 'opts': o})
         res = pool.run_requests('2.7', reqs)
-        ex = pool.run_requests('2.7', [{'op': 'exec', 'id': 'in', 'src_b64': inputs.b64(src27.encode())}] +
-                               [{'op': 'exec', 'id': q['id'], 'src_b64': res[q['id']].get('out_b64', '')} for q in reqs if res[q['id']].get('out_b64')])
+        exq = [{'op': 'exec', 'id': 'in:' + pname, 'src_b64': inputs.b64(src27.encode())} for pname, src27 in progs27.items()]
+        exq += [{'op': 'exec', 'id': q['id'], 'src_b64': res[q['id']].get('out_b64', '')} for q in reqs if res.get(q['id'], {}).get('out_b64')]
+        ex = pool.run_requests('2.7', exq)
+        import base64 as _b64
         for q in reqs:
-            a = res[q['id']]
-            if q['id'] not in ex:
+            a = res.get(q['id'], {})
+            pname = q['id'].split('|')[0]
+            if q['id'] not in ex or 'in:' + pname not in ex:
                 continue
+            out_text = _b64.b64decode(a.get('out_b64', '')).decode('utf-8', 'replace')
             records.append({'id': q['id'], 'trigger': True, 'outcome': a.get('outcome', 'raise:?'), 'seams': False, 'tainted_observed': True, 'stages': [],
-                            'opts': {}, 'ids_in': [], 'ids_out': [], 'ran': True, 'run_in': ex['in'].get('stdout', '') + ex['in'].get('exc', ''),
+                            'opts': {}, 'ids_in': names_of(progs27[pname]), 'ids_out': names_of(out_text), 'ran': True,
+                            'run_in': ex['in:' + pname].get('stdout', '') + ex['in:' + pname].get('exc', ''),
                             'run_out': ex[q['id']].get('stdout', '') + ex[q['id']].get('exc', '')})
-            keep[q['id']] = {'_out': a.get('out_b64'), 'src': src27}
+            keep[q['id']] = {'_out': out_text, 'src': progs27[pname]}
             rep.evaluations += 1
     verdicts, judged = tlc.judge('Trace_Taint', 'Trace_Taint.cfg', records, tag='C09t')
     rep.add_judged(judged)
